@@ -1,8 +1,795 @@
 import QP.Base
+/-!
+# C13 — parameter scopes (`qupulse/parameter_scope.py`, `qupulse/pulses/range.py:RangeScope`)
+
+Two layers:
+
+* **Spec** (`Scope`, `denote`, `DependsVolatile`, `rebuild`): the immutable description of a stack of
+  scope layers and the mapping / volatility it denotes.  Nothing here knows about caches.
+* **Model** (`Caches`, `lookup`, `contains`, `keys`, `iter`, `len`, `items`, `asDict`, `volatile`,
+  `changeConstants`): the code that exists, method by method, including the memo fields
+  (`MappedScope._cache/_as_dict/_volatile_parameters_cache`, `RangeScope._as_dict`,
+  `JointScope._as_dict/_volatile_parameters`) which are threaded through every call as a tree
+  `Caches` of the same shape as the scope.  Python objects that are shared between two places of a
+  stack have one memo in Python and two in the model; since memo contents are proved to be
+  unobservable (`QP.Props.C13`) this does not change any answer.
+
+Where Python raises, the model returns `.error <class>`.
+-/
 namespace QP.C13
+
+abbrev Name := String
+abbrev Val := Rat
+/-- a Python `dict` / `FrozenDict` with string keys: association list, first match wins, keys are
+required to be distinct by `WF` -/
+abbrev Dict := List (Name × Val)
+
+inductive Err where
+  | parameterMissing   -- `ParameterNotProvidedException` (a `KeyError`)
+  | keyError           -- plain `KeyError` (`JointScope._lookup[name]`)
+  | typeError          -- item assignment on a `FrozenDict` (`MappedScope._cache` after `as_dict`)
+  | valueError         -- only the pinned (unrepaired) `JointScope.get_volatile_parameters`, PF-07
+  | attributeError     -- only the pinned (unrepaired) `JointScope.get_volatile_parameters`, PF-07
+  | mismatch           -- memo tree does not fit the scope (not reachable from `fresh`)
+  deriving Repr, BEq, DecidableEq
+
+/-! ## Association lists -/
+
+def alook {β : Type} (n : Name) : List (Name × β) → Option β
+  | [] => none
+  | (k, v) :: rest => if n = k then some v else alook n rest
+
+def akeys {β : Type} (l : List (Name × β)) : List Name := l.map Prod.fst
+
+/-- `{**d, k: v}` -/
+def upsert (d : Dict) (k : Name) (v : Val) : Dict :=
+  match d with
+  | [] => [(k, v)]
+  | (k', v') :: rest => if k' = k then (k, v) :: rest else (k', v') :: upsert rest k v
+
+/-- `set(a) | set(b)` as a duplicate-free list (given `a`, `b` duplicate-free) -/
+def unionKeys (a b : List Name) : List Name := a ++ b.filter (fun n => decide (n ∉ a))
+
+/-- `set(l)` as a duplicate-free list -/
+def dedup : List Name → List Name
+  | [] => []
+  | x :: xs => if x ∈ dedup xs then dedup xs else x :: dedup xs
+
+/-- `s.add(k)` on a list-set -/
+def insertName (k : Name) (l : List Name) : List Name := if k ∈ l then l else k :: l
+
+/-! ## Expressions (sympy-parsed trees, as walked by the harness) -/
+
+inductive Expr where
+  | lit (q : Rat)
+  | var (n : Name)
+  | add (a b : Expr)
+  | sub (a b : Expr)
+  | mul (a b : Expr)
+  | pow (a : Expr) (k : Nat)
+  deriving Repr, Inhabited
+
+namespace Expr
+
+/-- free variables, with repetitions (`Expression.variables` as a set) -/
+def vars : Expr → List Name
+  | lit _ => []
+  | var n => [n]
+  | add a b => a.vars ++ b.vars
+  | sub a b => a.vars ++ b.vars
+  | mul a b => a.vars ++ b.vars
+  | pow a _ => a.vars
+
+/-- value in an environment; `none` iff a free variable has no value -/
+def eval (ρ : Name → Option Val) : Expr → Option Val
+  | lit q => some q
+  | var n => ρ n
+  | add a b => do let x ← a.eval ρ; let y ← b.eval ρ; pure (x + y)
+  | sub a b => do let x ← a.eval ρ; let y ← b.eval ρ; pure (x - y)
+  | mul a b => do let x ← a.eval ρ; let y ← b.eval ρ; pure (x * y)
+  | pow a k => do let x ← a.eval ρ; pure (x ^ k)
+
+end Expr
+
+/-! ## Spec: scope stacks and what they denote -/
+
+mutual
+/-- a stack of scope layers (what the constructors of the four classes were given) -/
+inductive Scope where
+  /-- `DictScope(values, volatile)` -/
+  | dict (vals : Dict) (vol : List Name)
+  /-- `MappedScope(scope, mapping)` -/
+  | mapped (inner : Scope) (m : List (Name × Expr))
+  /-- `RangeScope(inner, index_name, index_value)` -/
+  | range (inner : Scope) (idx : Name) (val : Val)
+  /-- `JointScope(lookup)` -/
+  | joint (es : Entries)
+/-- the `lookup` dictionary of a `JointScope` -/
+inductive Entries where
+  | nil
+  | cons (k : Name) (s : Scope) (rest : Entries)
+end
+
+mutual
+/-- The mapping a stack denotes: the innermost definition of a name wins; mapping expressions are
+evaluated simultaneously in the *outer* scope. -/
+def denote : Scope → Name → Option Val
+  | .dict vals _, n => alook n vals
+  | .mapped inner m, n =>
+    match alook n m with
+    | some e => e.eval (denote inner)
+    | none => denote inner n
+  | .range inner idx v, n => if n = idx then some v else denote inner n
+  | .joint es, n => denoteE es n
+def denoteE : Entries → Name → Option Val
+  | .nil, _ => none
+  | .cons k s rest, n => if n = k then denote s n else denoteE rest n
+end
+
+mutual
+/-- `n`'s value depends on a parameter marked volatile at the top: follow the defining expressions
+down the stack; a loop index cuts the chain for its own name. -/
+def DependsVolatile : Scope → Name → Prop
+  | .dict _ vol, n => n ∈ vol
+  | .mapped inner m, n =>
+    match alook n m with
+    | some e => ∃ v, v ∈ e.vars ∧ DependsVolatile inner v
+    | none => DependsVolatile inner n
+  | .range inner idx _, n => n ≠ idx ∧ DependsVolatile inner n
+  | .joint es, n => DependsVolatileE es n
+def DependsVolatileE : Entries → Name → Prop
+  | .nil, _ => False
+  | .cons k s rest, n => if n = k then DependsVolatile s n else DependsVolatileE rest n
+end
+
+mutual
+/-- executable twin of `DependsVolatile` -/
+def dependsVolatileB : Scope → Name → Bool
+  | .dict _ vol, n => decide (n ∈ vol)
+  | .mapped inner m, n =>
+    match alook n m with
+    | some e => e.vars.any (dependsVolatileB inner)
+    | none => dependsVolatileB inner n
+  | .range inner idx _, n => n ≠ idx && dependsVolatileB inner n
+  | .joint es, n => dependsVolatileBE es n
+def dependsVolatileBE : Entries → Name → Bool
+  | .nil, _ => false
+  | .cons k s rest, n => if n = k then dependsVolatileB s n else dependsVolatileBE rest n
+end
+
+def keysE : Entries → List Name
+  | .nil => []
+  | .cons k _ rest => k :: keysE rest
+
+/-- `name in scope` — no memo is involved in any of the four `__contains__` -/
+def contains : Scope → Name → Bool
+  | .dict vals _, n => decide (n ∈ akeys vals)
+  | .mapped inner m, n => decide (n ∈ akeys m) || contains inner n
+  | .range inner idx _, n => decide (n = idx) || contains inner n
+  | .joint es, n => decide (n ∈ keysE es)
+
+mutual
+/-- Well-formedness: the lists are dictionaries (distinct keys) and — the guard the code enforces
+lazily with `ParameterNotProvidedException` — every variable of a mapping expression is a member of
+the scope the `MappedScope` was built on, and every `JointScope` entry provides the name it is
+listed under. -/
+def wfB : Scope → Bool
+  | .dict vals _ => decide (akeys vals).Nodup
+  | .mapped inner m =>
+    wfB inner && decide (akeys m).Nodup && m.all (fun ke => ke.2.vars.all (fun v => contains inner v))
+  | .range inner _ _ => wfB inner
+  | .joint es => wfBE es && decide (keysE es).Nodup
+def wfBE : Entries → Bool
+  | .nil => true
+  | .cons k s rest => wfB s && contains s k && wfBE rest
+end
+
+def WF (s : Scope) : Prop := wfB s = true
+def WFE (es : Entries) : Prop := wfBE es = true
+
+mutual
+/-- all names that occur as a key, index or volatile mark anywhere in the stack (finite candidate
+set for the executable judges) -/
+def names : Scope → List Name
+  | .dict vals vol => akeys vals ++ vol
+  | .mapped inner m => akeys m ++ names inner
+  | .range inner idx _ => idx :: names inner
+  | .joint es => namesE es
+def namesE : Entries → List Name
+  | .nil => []
+  | .cons k s rest => k :: (names s ++ namesE rest)
+end
+
+/-- `l` lists exactly the names that have a value, each once -/
+def IsKeySet (s : Scope) (l : List Name) : Prop := l.Nodup ∧ ∀ n, n ∈ l ↔ (denote s n).isSome
+/-- `d` is the dictionary view of `s` -/
+def IsDictOf (s : Scope) (d : Dict) : Prop := (akeys d).Nodup ∧ ∀ n, alook n d = denote s n
+/-- `l` lists exactly the volatile names, each once -/
+def IsVolSet (s : Scope) (l : List Name) : Prop := l.Nodup ∧ ∀ n, n ∈ l ↔ DependsVolatile s n
+
+def isKeySetB (s : Scope) (l : List Name) : Bool :=
+  decide l.Nodup && (l ++ names s).all (fun n => decide (n ∈ l) == (denote s n).isSome)
+def isDictOfB (s : Scope) (d : Dict) : Bool :=
+  decide (akeys d).Nodup && (akeys d ++ names s).all (fun n => decide (alook n d = denote s n))
+def isVolSetB (s : Scope) (l : List Name) : Bool :=
+  decide l.Nodup && (l ++ names s).all (fun n => decide (n ∈ l) == dependsVolatileB s n)
+
+/-- `{k: new.get(k, old) for k, old in values.items()}` -/
+def updateVals (vals : Dict) (c : Dict) : Dict :=
+  vals.map (fun kv => (kv.1, match alook kv.1 c with | some v => v | none => kv.2))
+
+mutual
+/-- the stack built from the changed constants -/
+def rebuild : Scope → Dict → Scope
+  | .dict vals vol, c => .dict (updateVals vals c) vol
+  | .mapped inner m, c => .mapped (rebuild inner c) m
+  | .range inner idx v, c => .range (rebuild inner c) idx v
+  | .joint es, c => .joint (rebuildE es c)
+def rebuildE : Entries → Dict → Entries
+  | .nil, _ => .nil
+  | .cons k s rest, c => .cons k (rebuild s c) (rebuildE rest c)
+end
+
+/-! ## Model: the objects' memo fields -/
+
+mutual
+inductive Caches where
+  | dict
+  /-- `_cache`, `_as_dict`, `_volatile_parameters_cache` (key set) -/
+  | mapped (inner : Caches) (cache : Dict) (asd : Option Dict) (volc : Option (List Name))
+  /-- `_as_dict` -/
+  | range (inner : Caches) (asd : Option Dict)
+  /-- `_as_dict`, `_volatile_parameters` (key set) -/
+  | joint (es : CachesE) (asd : Option Dict) (volc : Option (List Name))
+inductive CachesE where
+  | nil
+  | cons (c : Caches) (rest : CachesE)
+end
+
+mutual
+/-- memo state of freshly constructed objects -/
+def fresh : Scope → Caches
+  | .dict _ _ => .dict
+  | .mapped inner _ => .mapped (fresh inner) [] none none
+  | .range inner _ _ => .range (fresh inner) none
+  | .joint es => .joint (freshE es) none none
+def freshE : Entries → CachesE
+  | .nil => .nil
+  | .cons _ s rest => .cons (fresh s) (freshE rest)
+end
+
+mutual
+/-- Memo invariant: the memo tree fits the stack and everything memoised is what the stack denotes.
+Established by `fresh`, preserved by every method (`QP.Props.C13`). -/
+def CacheOK : Scope → Caches → Prop
+  | .dict _ _, .dict => True
+  | .mapped inner m, .mapped ci cache asd volc =>
+    CacheOK inner ci ∧
+    (∀ n v, alook n cache = some v → denote (.mapped inner m) n = some v) ∧
+    (∀ d, asd = some d → cache = d ∧ IsDictOf (.mapped inner m) d) ∧
+    (∀ l, volc = some l → IsVolSet (.mapped inner m) l)
+  | .range inner idx v, .range ci asd =>
+    CacheOK inner ci ∧ (∀ d, asd = some d → IsDictOf (.range inner idx v) d)
+  | .joint es, .joint ces asd volc =>
+    CacheOKE es ces ∧ (∀ d, asd = some d → IsDictOf (.joint es) d) ∧
+    (∀ l, volc = some l → IsVolSet (.joint es) l)
+  | _, _ => False
+def CacheOKE : Entries → CachesE → Prop
+  | .nil, .nil => True
+  | .cons _ s rest, .cons c crest => CacheOK s c ∧ CacheOKE rest crest
+  | _, _ => False
+end
+
+abbrev Res (α : Type) := Except Err α × Caches
+
+/-- `{v: get(v) for v in names}` with the memo state threaded through; stops at the first error -/
+def getAll (get : Caches → Name → Res Val) : Caches → List Name → Res Dict
+  | c, [] => (.ok [], c)
+  | c, v :: vs =>
+    let r := get c v
+    match r.1 with
+    | .error e => (.error e, r.2)
+    | .ok x =>
+      let r' := getAll get r.2 vs
+      match r'.1 with
+      | .error e => (.error e, r'.2)
+      | .ok env => (.ok ((v, x) :: env), r'.2)
+
+/-- `Expression._parse_evaluate_numeric_arguments` + `MappedScope._calc_parameter`'s handler: a
+`KeyError` of either kind surfaces as `ParameterNotProvidedException` -/
+def convertMissing : Err → Err
+  | .keyError => .parameterMissing
+  | e => e
+
+/-- `expression.evaluate_in_scope(scope)` where `scope[v]` is `get` -/
+def evalIn (get : Caches → Name → Res Val) (c : Caches) (e : Expr) : Res Val :=
+  let r := getAll get c e.vars
+  match r.1 with
+  | .error err => (.error (convertMissing err), r.2)
+  | .ok env =>
+    match e.eval (fun v => alook v env) with
+    | some x => (.ok x, r.2)
+    | none => (.error .parameterMissing, r.2)   -- not reachable: `env` has every variable
+
+/-- `MappedScope._calc_parameter` (`get` is the inner scope's `get_parameter`) -/
+def calcParameter (get : Caches → Name → Res Val) (m : List (Name × Expr)) (ci : Caches) (n : Name) :
+    Res Val :=
+  match alook n m with
+  | none => get ci n
+  | some e => evalIn get ci e
+
+/-- `MappedScope.get_parameter` -/
+def mappedLookup (get : Caches → Name → Res Val) (m : List (Name × Expr)) (ci : Caches) (cache : Dict)
+    (asd : Option Dict) (volc : Option (List Name)) (n : Name) : Res Val :=
+  match alook n cache with
+  | some v => (.ok v, .mapped ci cache asd volc)
+  | none =>
+    let r := calcParameter get m ci n
+    match r.1 with
+    | .error err => (.error err, .mapped r.2 cache asd volc)
+    | .ok v =>
+      -- `self._cache[parameter_name] = result`; after `as_dict()` the memo is the FrozenDict
+      match asd with
+      | some _ => (.error .typeError, .mapped r.2 cache asd volc)
+      | none => (.ok v, .mapped r.2 ((n, v) :: cache) asd volc)
+
+mutual
+/-- `scope[name]` / `get_parameter` -/
+def lookup : Scope → Caches → Name → Res Val
+  | .dict vals _, c, n =>
+    (match alook n vals with | some v => .ok v | none => .error .parameterMissing, c)
+  | .mapped inner m, .mapped ci cache asd volc, n => mappedLookup (lookup inner) m ci cache asd volc n
+  | .range inner idx v, .range ci asd, n =>
+    if n = idx then (.ok v, .range ci asd)
+    else let r := lookup inner ci n; (r.1, .range r.2 asd)
+  | .joint es, .joint ces asd volc, n =>
+    let r := lookupE es ces n
+    (r.1, .joint r.2 asd volc)
+  | _, c, _ => (.error .mismatch, c)
+/-- `self._lookup[name].get_parameter(name)` -/
+def lookupE : Entries → CachesE → Name → Except Err Val × CachesE
+  | .nil, c, _ => (.error .keyError, c)
+  | .cons k s rest, .cons c crest, n =>
+    if n = k then let r := lookup s c n; (r.1, .cons r.2 crest)
+    else let r := lookupE rest crest n; (r.1, .cons c r.2)
+  | _, c, _ => (.error .mismatch, c)
+end
+
+/-- `RangeScope.as_dict` given the inner scope's `as_dict` -/
+def rangeAsDict (innerAsDict : Caches → Res Dict) (idx : Name) (v : Val) (ci : Caches)
+    (asd : Option Dict) : Res Dict :=
+  match asd with
+  | some d => (.ok d, .range ci asd)
+  | none =>
+    let r := innerAsDict ci
+    match r.1 with
+    | .error e => (.error e, .range r.2 none)
+    | .ok d => let d' := upsert d idx v; (.ok d', .range r.2 (some d'))
+
+/-- `MappedScope.keys` given the inner scope's `keys` -/
+def mappedKeys (innerKeys : Caches → Res (List Name)) (m : List (Name × Expr)) (ci : Caches)
+    (cache : Dict) (asd : Option Dict) (volc : Option (List Name)) : Res (List Name) :=
+  let r := innerKeys ci
+  match r.1 with
+  | .error e => (.error e, .mapped r.2 cache asd volc)
+  | .ok ks => (.ok (unionKeys (akeys m) ks), .mapped r.2 cache asd volc)
+
+/-- `MappedScope.as_dict` (`self` is the scope itself, `innerKeys` its inner scope's `keys`) -/
+def mappedAsDict (self : Scope) (innerKeys : Caches → Res (List Name)) (m : List (Name × Expr)) :
+    Caches → Res Dict
+  | .mapped ci cache (some d) volc => (.ok d, .mapped ci cache (some d) volc)
+  | .mapped ci cache none volc =>
+    let rk := mappedKeys innerKeys m ci cache none volc
+    match rk.1 with
+    | .error e => (.error e, rk.2)
+    | .ok ks =>
+      let r := getAll (lookup self) rk.2 ks
+      match r.1 with
+      | .error e => (.error e, r.2)
+      | .ok d =>
+        match r.2 with
+        | .mapped ci' _ _ volc' => (.ok d, .mapped ci' d (some d) volc')   -- `self._cache = self._as_dict`
+        | c' => (.error .mismatch, c')
+  | c => (.error .mismatch, c)
+
+/-- `ItemsView(self)` / `FrozenDict(self.items())` of the base class: iterate, look each key up -/
+def jointItems (es : Entries) (c : Caches) : Res Dict :=
+  getAll (lookup (.joint es)) c (keysE es)
+
+mutual
+/-- `scope.keys()` (observed as a list) -/
+def keys : Scope → Caches → Res (List Name)
+  | .dict vals _, c => (.ok (akeys vals), c)
+  | .mapped inner m, .mapped ci cache asd volc => mappedKeys (keys inner) m ci cache asd volc
+  | .range inner idx v, .range ci asd =>
+    let r := rangeAsDict (asDict inner) idx v ci asd
+    (match r.1 with | .ok d => .ok (akeys d) | .error e => .error e, r.2)
+  | .joint es, c => (.ok (keysE es), c)
+  | _, c => (.error .mismatch, c)
+/-- `scope.as_dict()` -/
+def asDict : Scope → Caches → Res Dict
+  | .dict vals _, c => (.ok vals, c)
+  | .mapped inner m, c =>
+    mappedAsDict (.mapped inner m) (keys inner) m c
+  | .range inner idx v, .range ci asd => rangeAsDict (asDict inner) idx v ci asd
+  | .joint es, .joint ces asd volc =>
+    match asd with
+    | some d => (.ok d, .joint ces asd volc)
+    | none =>
+      let r := jointItems es (.joint ces none volc)
+      match r.1 with
+      | .error e => (.error e, r.2)
+      | .ok d =>
+        match r.2 with
+        | .joint ces' _ volc' => (.ok d, .joint ces' (some d) volc')
+        | c' => (.error .mismatch, c')
+  | _, c => (.error .mismatch, c)
+end
+
+/-- `scope.items()` -/
+def items : Scope → Caches → Res Dict
+  | .dict vals _, c => (.ok vals, c)
+  | .mapped inner m, c => asDict (.mapped inner m) c
+  | .range inner idx v, c => asDict (.range inner idx v) c
+  | .joint es, c => jointItems es c
+
+/-- `iter(scope)` -/
+def iter : Scope → Caches → Res (List Name)
+  | .dict vals _, c => (.ok (akeys vals), c)
+  | .mapped inner m, c => keys (.mapped inner m) c
+  | .range inner idx _, .range ci asd =>
+    let r := iter inner ci
+    match r.1 with
+    | .error e => (.error e, .range r.2 asd)
+    | .ok l => (.ok (if contains inner idx then l else l ++ [idx]), .range r.2 asd)
+  | .joint es, c => (.ok (keysE es), c)
+  | _, c => (.error .mismatch, c)
+
+/-- `len(scope)` -/
+def len : Scope → Caches → Res Nat
+  | .dict vals _, c => (.ok vals.length, c)
+  | .mapped inner m, c =>
+    let r := keys (.mapped inner m) c
+    (match r.1 with | .ok l => .ok l.length | .error e => .error e, r.2)
+  | .range inner idx _, .range ci asd =>
+    let r := len inner ci
+    match r.1 with
+    | .error e => (.error e, .range r.2 asd)
+    | .ok k => (.ok (k + (if contains inner idx then 0 else 1)), .range r.2 asd)
+  | .joint es, c => (.ok (keysE es).length, c)
+  | _, c => (.error .mismatch, c)
+
+/-- the loop of `MappedScope._collect_volatile_parameters` over `self._mapping.items()`;
+`getSelf` is `self[variable]`, `iv` the inner scope's volatile names, `acc` the dictionary under
+construction (keys only) -/
+def collectVol (getSelf : Caches → Name → Res Val) (iv : List Name) :
+    List (Name × Expr) → List Name → Caches → Res (List Name)
+  | [], acc, c => (.ok acc, c)
+  | (k, e) :: rest, acc, c =>
+    if e.vars.any (fun v => decide (v ∈ iv)) then
+      -- `subs_vals[variable] = self[variable]` for the variables that are not volatile
+      let r := getAll getSelf c (e.vars.filter (fun v => decide (v ∉ iv)))
+      match r.1 with
+      | .error err => (.error err, r.2)
+      | .ok _ => collectVol getSelf iv rest (insertName k acc) r.2
+    else
+      collectVol getSelf iv rest (acc.filter (fun x => x ≠ k)) c
+
+/-- `MappedScope.get_volatile_parameters` / `_collect_volatile_parameters` (key set); `innerVol` is the
+inner scope's `get_volatile_parameters`, `getSelf` is `self[...]` -/
+def mappedVolatile (innerVol : Caches → Res (List Name)) (getSelf : Caches → Name → Res Val)
+    (m : List (Name × Expr)) : Caches → Res (List Name)
+  | .mapped ci cache asd (some l) => (.ok l, .mapped ci cache asd (some l))
+  | .mapped ci cache asd none =>
+    let ri := innerVol ci
+    match ri.1 with
+    | .error e => (.error e, .mapped ri.2 cache asd none)
+    | .ok iv =>
+      if iv.isEmpty then (.ok [], .mapped ri.2 cache asd (some []))     -- `return inner_volatile`
+      else
+        let r := collectVol getSelf iv m iv (.mapped ri.2 cache asd none)
+        match r.1 with
+        | .error e => (.error e, r.2)
+        | .ok l =>
+          match r.2 with
+          | .mapped ci' cache' asd' _ => (.ok l, .mapped ci' cache' asd' (some l))
+          | c' => (.error .mismatch, c')
+  | c => (.error .mismatch, c)
+
+mutual
+/-- key set of `scope.get_volatile_parameters()`; `JointScope` as repaired by `fixes/PF-07.diff` -/
+def volatile : Scope → Caches → Res (List Name)
+  | .dict _ vol, c => (.ok (dedup vol), c)
+  | .mapped inner m, c => mappedVolatile (volatile inner) (lookup (.mapped inner m)) m c
+  | .range inner idx _, .range ci asd =>
+    let r := volatile inner ci
+    (match r.1 with | .ok l => .ok (l.filter (fun n => n ≠ idx)) | .error e => .error e, .range r.2 asd)
+  | .joint es, .joint ces asd volc =>
+    match volc with
+    | some l => (.ok l, .joint ces asd volc)
+    | none =>
+      let r := volatileE es ces
+      match r.1 with
+      | .error e => (.error e, .joint r.2 asd none)
+      | .ok l => (.ok l, .joint r.2 asd (some l))
+  | _, c => (.error .mismatch, c)
+/-- `for name, scope in self._lookup.items(): if name in scope.get_volatile_parameters(): …` -/
+def volatileE : Entries → CachesE → Except Err (List Name) × CachesE
+  | .nil, c => (.ok [], c)
+  | .cons k s rest, .cons c crest =>
+    let r := volatile s c
+    match r.1 with
+    | .error e => (.error e, .cons r.2 crest)
+    | .ok iv =>
+      let r' := volatileE rest crest
+      match r'.1 with
+      | .error e => (.error e, .cons r.2 r'.2)
+      | .ok l => (.ok (if k ∈ iv then k :: l else l), .cons r.2 r'.2)
+  | _, c => (.error .mismatch, c)
+end
+
+/-- The pinned tree's `JointScope.get_volatile_parameters` (PF-07): `for parameter_name, scope in
+self._lookup:` unpacks the first *key string*. -/
+def volatileJointPinned : Entries → Except Err (List Name)
+  | .nil => .ok []
+  | .cons k _ _ => if k.length = 2 then .error .attributeError else .error .valueError
+
+structure Changed where
+  scope : Scope
+  caches : Caches
+  /-- the method returned `self` -/
+  same : Bool
+
+structure ChangedE where
+  es : Entries
+  caches : CachesE
+
+mutual
+/-- `scope.change_constants(new_constants)` -/
+def changeConstants : Scope → Caches → Dict → Changed
+  | .dict vals vol, c, new =>
+    if (akeys vals).any (fun k => decide (k ∈ akeys new)) then
+      ⟨.dict (updateVals vals new) vol, .dict, false⟩
+    else ⟨.dict vals vol, c, true⟩
+  | .mapped inner m, .mapped ci cache asd volc, new =>
+    let r := changeConstants inner ci new
+    if r.same then ⟨.mapped inner m, .mapped ci cache asd volc, true⟩     -- `scope is self._scope`
+    else ⟨.mapped r.scope m, .mapped r.caches [] none none, false⟩
+  | .range inner idx v, .range ci _, new =>
+    let r := changeConstants inner ci new
+    ⟨.range r.scope idx v, .range r.caches none, false⟩
+  | .joint es, .joint ces _ _, new =>
+    let r := changeConstantsE es ces new
+    ⟨.joint r.es, .joint r.caches none none, false⟩
+  | s, _, new => ⟨rebuild s new, fresh (rebuild s new), false⟩   -- memo tree does not fit: not reachable
+def changeConstantsE : Entries → CachesE → Dict → ChangedE
+  | .nil, _, _ => ⟨.nil, .nil⟩
+  | .cons k s rest, .cons c crest, new =>
+    let r := changeConstants s c new
+    let r' := changeConstantsE rest crest new
+    ⟨.cons k r.scope r'.es, .cons r.caches r'.caches⟩
+  | es, _, new => ⟨rebuildE es new, freshE (rebuildE es new)⟩
+end
+
+/-! ## Histories -/
+
+inductive Op where
+  | get (n : Name)
+  | has (n : Name)
+  | iter
+  | len
+  | keys
+  | items
+  | asdict
+  | vol
+  | change (c : Dict)
+  deriving Repr
+
+inductive Ans where
+  | val (r : Except Err Val)
+  | bool (b : Bool)
+  | names (r : Except Err (List Name))
+  | len (r : Except Err Nat)
+  | dict (r : Except Err Dict)
+  | changed (same : Bool)
+
+/-- one call on the current object -/
+def step (s : Scope) (c : Caches) : Op → Ans × Scope × Caches
+  | .get n => let r := lookup s c n; (.val r.1, s, r.2)
+  | .has n => (.bool (contains s n), s, c)
+  | .iter => let r := iter s c; (.names r.1, s, r.2)
+  | .len => let r := len s c; (.len r.1, s, r.2)
+  | .keys => let r := keys s c; (.names r.1, s, r.2)
+  | .items => let r := items s c; (.dict r.1, s, r.2)
+  | .asdict => let r := asDict s c; (.dict r.1, s, r.2)
+  | .vol => let r := volatile s c; (.names r.1, s, r.2)
+  | .change new => let r := changeConstants s c new; (.changed r.same, r.scope, r.caches)
+
+def run (s : Scope) (c : Caches) : List Op → List Ans
+  | [] => []
+  | op :: ops => let r := step s c op; r.1 :: run r.2.1 r.2.2 ops
+
+/-- what the property demands of one answer on the stack `s` -/
+def AnsOK (s : Scope) : Op → Ans → Prop
+  | .get n, .val r => r.toOption = denote s n
+  | .has n, .bool b => (b = true ↔ (denote s n).isSome)
+  | .iter, .names (.ok l) => IsKeySet s l
+  | .keys, .names (.ok l) => IsKeySet s l
+  | .len, .len (.ok k) => ∃ l, IsKeySet s l ∧ l.length = k
+  | .items, .dict (.ok d) => IsDictOf s d
+  | .asdict, .dict (.ok d) => IsDictOf s d
+  | .vol, .names (.ok l) => IsVolSet s l
+  | .change _, .changed _ => True
+  | _, _ => False
+
+/-- the key-set candidates of `len`: some duplicate-free list of the names with a value -/
+def supportList (s : Scope) : List Name :=
+  (dedup (names s)).filter (fun n => (denote s n).isSome)
+
+/-- executable twin of `AnsOK` (the judge) -/
+def ansOKB (s : Scope) : Op → Ans → Bool
+  | .get n, .val r => decide (r.toOption = denote s n)
+  | .has n, .bool b => b == (denote s n).isSome
+  | .iter, .names (.ok l) => isKeySetB s l
+  | .keys, .names (.ok l) => isKeySetB s l
+  | .len, .len (.ok k) => decide ((supportList s).length = k)
+  | .items, .dict (.ok d) => isDictOfB s d
+  | .asdict, .dict (.ok d) => isDictOfB s d
+  | .vol, .names (.ok l) => isVolSetB s l
+  | .change _, .changed _ => true
+  | _, _ => false
+
+/-- the stack the next call talks about -/
+def specNext (s : Scope) : Op → Scope
+  | .change new => rebuild s new
+  | _ => s
+
+/-- every answer of a history is the answer the denoted mapping gives -/
+def RunOK : Scope → List Op → List Ans → Prop
+  | _, [], [] => True
+  | s, op :: ops, a :: as => AnsOK s op a ∧ RunOK (specNext s op) ops as
+  | _, _, _ => False
+
+/-! ## Line protocol -/
 open Sexp
 
+def errName : Err → String
+  | .parameterMissing => "parameter_missing"
+  | .keyError => "key_error"
+  | .typeError => "type_error"
+  | .valueError => "value_error"
+  | .attributeError => "attribute_error"
+  | .mismatch => "mismatch"
+
+def errS (e : Err) : Sexp := .list [.atom "error", .atom (errName e)]
+
+def err? : String → Option Err
+  | "parameter_missing" => some .parameterMissing
+  | "key_error" => some .keyError
+  | "type_error" => some .typeError
+  | "value_error" => some .valueError
+  | "attribute_error" => some .attributeError
+  | _ => none
+
+partial def expr? : Sexp → Option Expr
+  | .list [.atom "lit", q] => (rat? q).map .lit
+  | .list [.atom "var", .atom n] => some (.var n)
+  | .list [.atom "add", a, b] => do some (.add (← expr? a) (← expr? b))
+  | .list [.atom "sub", a, b] => do some (.sub (← expr? a) (← expr? b))
+  | .list [.atom "mul", a, b] => do some (.mul (← expr? a) (← expr? b))
+  | .list [.atom "pow", a, k] => do some (.pow (← expr? a) (← nat? k))
+  | _ => none
+
+def dict? : Sexp → Option Dict
+  | .list xs => xs.mapM (fun x => match x with
+      | .list [.atom k, v] => (rat? v).map (fun v => (k, v))
+      | _ => none)
+  | _ => none
+
+def names? : Sexp → Option (List Name)
+  | .list xs => xs.mapM (fun x => match x with | .atom k => some k | _ => none)
+  | _ => none
+
+mutual
+partial def scope? : Sexp → Option Scope
+  | .list [.atom "dict", vals, vol] => do some (.dict (← dict? vals) (← names? vol))
+  | .list [.atom "mapped", inner, .list m] => do
+      let inner ← scope? inner
+      let m ← m.mapM (fun x => match x with
+        | .list [.atom k, e] => (expr? e).map (fun e => (k, e))
+        | _ => none)
+      some (.mapped inner m)
+  | .list [.atom "range", inner, .atom idx, v] => do some (.range (← scope? inner) idx (← rat? v))
+  | .list [.atom "joint", .list es] => do some (.joint (← entries? es))
+  | _ => none
+partial def entries? : List Sexp → Option Entries
+  | [] => some .nil
+  | .list [.atom k, s] :: rest => do some (.cons k (← scope? s) (← entries? rest))
+  | _ => none
+end
+
+def op? : Sexp → Option Op
+  | .list [.atom "get", .atom n] => some (.get n)
+  | .list [.atom "has", .atom n] => some (.has n)
+  | .list [.atom "iter"] => some .iter
+  | .list [.atom "len"] => some .len
+  | .list [.atom "keys"] => some .keys
+  | .list [.atom "items"] => some .items
+  | .list [.atom "asdict"] => some .asdict
+  | .list [.atom "vol"] => some .vol
+  | .list [.atom "change", c] => (dict? c).map .change
+  | _ => none
+
+def dictS (d : Dict) : Sexp := .list (d.map (fun kv => .list [.atom kv.1, ofRat kv.2]))
+def namesS (l : List Name) : Sexp := .list (l.map .atom)
+
+def ansS : Ans → Sexp
+  | .val (.ok v) => .list [.atom "ok", ofRat v]
+  | .val (.error e) => errS e
+  | .bool b => ofBool b
+  | .names (.ok l) => .list [.atom "names", namesS l]
+  | .names (.error e) => errS e
+  | .len (.ok k) => .list [.atom "len", ofNat k]
+  | .len (.error e) => errS e
+  | .dict (.ok d) => .list [.atom "dict", dictS d]
+  | .dict (.error e) => errS e
+  | .changed same => .list [.atom "changed", ofBool same]
+
+/-- an implementation answer, as sent by the harness; every error class that is not one of the
+model's travels as `(error other)` and is never accepted where a value is due -/
+def ans? (op : Op) (x : Sexp) : Option Ans :=
+  let e? : Sexp → Option Err := fun x => match x with
+    | .list [.atom "error", .atom e] => some ((err? e).getD .mismatch)
+    | _ => none
+  match op, x with
+  | .get _, .list [.atom "ok", v] => (rat? v).map (fun v => .val (.ok v))
+  | .get _, x => (e? x).map (fun e => .val (.error e))
+  | .has _, x => (bool? x).map .bool
+  | .len, .list [.atom "len", k] => (nat? k).map (fun k => .len (.ok k))
+  | .len, x => (e? x).map (fun e => .len (.error e))
+  | .items, .list [.atom "dict", d] => (dict? d).map (fun d => .dict (.ok d))
+  | .items, x => (e? x).map (fun e => .dict (.error e))
+  | .asdict, .list [.atom "dict", d] => (dict? d).map (fun d => .dict (.ok d))
+  | .asdict, x => (e? x).map (fun e => .dict (.error e))
+  | .change _, .list [.atom "changed", b] => (bool? b).map .changed
+  | .change _, _ => none
+  | _, .list [.atom "names", l] => (names? l).map (fun l => .names (.ok l))
+  | _, x => (e? x).map (fun e => .names (.error e))
+
+/-- Judge a history of implementation answers.  On a well-formed stack every answer is judged; on
+a malformed one (a mapping expression mentions a name its outer scope lacks, or a joint entry does
+not provide its name) only lookups are, since the property says nothing else about such stacks. -/
+def judgeRun : Scope → Nat → List (Op × Ans) → Sexp
+  | _, _, [] => .list [.atom "judge", .atom "ok"]
+  | s, i, (op, a) :: rest =>
+    let judged := wfB s || (match op with | .get _ => true | .change _ => true | _ => false)
+    if judged && !ansOKB s op a then
+      .list [.atom "judge", .atom "violates", ofNat i]
+    else judgeRun (specNext s op) (i + 1) rest
+
 def handle : List Sexp → Sexp
-  | _ => Sexp.err "c13-not-implemented"
+  | [.atom "run", s, .list ops] =>
+    match scope? s, ops.mapM op? with
+    | some s, some ops => .list (.atom "answers" :: (run s (fresh s) ops).map ansS)
+    | _, _ => Sexp.err "bad-args"
+  | [.atom "judge", s, .list ops, .list answers] =>
+    match scope? s, ops.mapM op? with
+    | some s, some ops =>
+      if ops.length ≠ answers.length then Sexp.err "bad-args" else
+      match (ops.zip answers).mapM (fun oa => (ans? oa.1 oa.2).map (fun a => (oa.1, a))) with
+      | some oas => judgeRun s 0 oas
+      | none => Sexp.err "bad-answer"
+    | _, _ => Sexp.err "bad-args"
+  | [.atom "wf", s] =>
+    match scope? s with
+    | some s => ofBool (wfB s)
+    | none => Sexp.err "bad-args"
+  | [.atom "pinned-joint-volatile", .list es] =>
+    match entries? es with
+    | some es => match volatileJointPinned es with
+      | .ok l => .list [.atom "names", namesS l]
+      | .error e => errS e
+    | none => Sexp.err "bad-args"
+  | _ => Sexp.err "c13-unknown-request"
 
 end QP.C13
